@@ -6,6 +6,7 @@
 //!   ilog2                            : ~75 field operands x hints 0..=65
 //!   std::math::u64::{div, mod, divmod}: operand pairs x wrong (q, r) families (q +- 1, q + k 2^32, r + b, ...)
 //!   ext2inv                          : wrong inverse
+//!   ext2div                          : wrong inverse of the divisor (perturbed; scaled by (1 - t, t))
 //!   mtree_get                        : inner node + a path shorter than the claimed depth
 //! Prints `FAIL <instr> <what>` (first 4 per instruction), SUMMARY, exit 1 on any failure.
 use assembly::Assembler;
@@ -148,6 +149,49 @@ fn main() {
                     }
                 }
                 Err(e) => t.fail(&mut shown, "ext2inv", format!("honest-host a=({a0},{a1}): {e}")),
+            }
+        }
+    }
+    // ---- ext2div: a wrong inverse of the divisor must be rejected (incl. inverses scaled by (1 - t, t): the two coordinates
+    //      of b * b' then still sum to 1)
+    {
+        let p = compile("begin ext2div end");
+        let pinv = compile("begin ext2inv end");
+        let mut shown = 0;
+        let fm = |x: u64, y: u64| ((x as u128 * y as u128) % P as u128) as u64;
+        let fa = |x: u64, y: u64| ((x as u128 + y as u128) % P as u128) as u64;
+        let fs = |x: u64, y: u64| ((x as u128 + P as u128 - y as u128) % P as u128) as u64;
+        // (x0, x1) * (y0, y1) in F_p[x] / (x^2 - x + 2)
+        let emul = |x: (u64, u64), y: (u64, u64)| -> (u64, u64) {
+            let c0 = fs(fm(x.0, y.0), fm(fm(2, x.1), y.1));
+            let c1 = fs(fm(fa(x.0, x.1), fa(y.0, y.1)), fm(x.0, y.0));
+            (c0, c1)
+        };
+        for (a, b) in [((1u64, 0u64), (1u64, 0u64)), ((5, 7), (3, 11)), ((P - 1, 12345), (0, 1)), ((0, 0), (P - 1, P - 2)), ((7, 0), (2, 0))] {
+            // `inputs` takes the bottom first: the stack is [b1, b0, a1, a0, ...] from the top
+            let st = inputs(&[a.0, a.1, b.0, b.1]);
+            let good = honest(&p, st.clone(), AdviceInputs::default());
+            let inv = honest(&pinv, inputs(&[b.0, b.1]), AdviceInputs::default());
+            t.total += 1;
+            match (&good, &inv) {
+                (Ok(g), Ok(iv)) => {
+                    let binv = (iv[1], iv[0]);
+                    let mut hints: Vec<(u64, u64)> = vec![];
+                    for tt in [1u64, 2, 12345, P - 1] { hints.push(emul(binv, (fs(1, tt), tt))); }
+                    for (d0, d1) in [(1u64, 0u64), (0, 1), (P - 1, 1)] { hints.push((fa(binv.0, d0), fa(binv.1, d1))); }
+                    hints.push((0, 0)); hints.push((1, 0)); hints.push((0, 1));
+                    for h in hints {
+                        if h == binv { continue; }
+                        t.total += 1;
+                        // the injector pushes so that b0' is popped first, then b1'
+                        let hint = vec![h.0, h.1];
+                        if let Ok(s) = dishonest(&p, st.clone(), AdviceInputs::default(), |i| matches!(i, AdviceInjector::Ext2Inv), hint, None) {
+                            if s[..2] != g[..2] { t.fail(&mut shown, "ext2div", format!("wrong-hint-accepted a=({},{}) b=({},{}) hint=({},{}) result={:?} correct={:?}", a.0, a.1, b.0, b.1, h.0, h.1, &s[..2], &g[..2])); }
+                        }
+                    }
+                }
+                (Err(e), _) => t.fail(&mut shown, "ext2div", format!("honest-host a=({},{}) b=({},{}): {e}", a.0, a.1, b.0, b.1)),
+                (_, Err(e)) => t.fail(&mut shown, "ext2div", format!("honest-host ext2inv b=({},{}): {e}", b.0, b.1)),
             }
         }
     }
